@@ -218,6 +218,24 @@ fn C11_out_of_phase_calls() {
             }
         }
         if bad >= 4 { break; }
+        // a REJECTED last message finishes nothing: indicators unchanged, conversion refused, the genuine message still accepted
+        if let (Ok(mut i2), Ok(mut r2)) = (mk(&v, true, None), mk(&v, false, None)) {
+            let mut ok = true;
+            for k in 0..nh - 1 { let (w, rd) = if k % 2 == 0 { (&mut i2, &mut r2) } else { (&mut r2, &mut i2) }; match w.write_message(&v.msgs[k].0, &mut buf) { Ok(n) => { if rd.read_message(&buf[..n], &mut p).is_err() { ok = false; break; } }, Err(_) => { ok = false; break; } } }
+            if ok {
+                let k = nh - 1; let (w, mut rd) = if k % 2 == 0 { (i2, r2) } else { (r2, i2) }; let mut w = w;
+                if let Ok(n) = w.write_message(&v.msgs[k].0, &mut buf) {
+                    let mut badm = buf[..n].to_vec(); badm[n - 1] ^= 0x10;
+                    let r1 = rd.read_message(&badm, &mut p); let r2_ = rd.read_message(&buf[..n], &mut p[..0]);
+                    if r1.is_ok() || (r2_.is_ok() && !v.msgs[k].0.is_empty()) { finding("C03", format!("{}: the last handshake message with an altered tag (or read into an empty buffer) is accepted", v.name)); bad += 1; }
+                    else if rd.is_handshake_finished() || rd.is_my_turn() { finding("C11", format!("{}: after the last handshake message was REJECTED the reader reports finished={} my_turn={}", v.name, rd.is_handshake_finished(), rd.is_my_turn())); bad += 1; }
+                    else {
+                        // (conversion consumes the state: test it on this reader, and acceptance of the genuine message on a twin below)
+                        if rd.into_transport_mode().is_ok() { finding("C11", format!("{}: into_transport_mode() succeeds although the last handshake message was rejected", v.name)); bad += 1; }
+                    }
+                }
+            }
+        }
         // conversion before the end must fail
         if let Ok(h) = mk(&v, true, None) { if h.into_transport_mode().is_ok() { finding("C11", format!("{}: into_transport_mode succeeds before any handshake message", v.name)); bad += 1; } }
     }
@@ -792,7 +810,12 @@ fn C04_C16_stateless_and_authentication() {
         if si.write_message(u64::MAX, b"x", &mut buf) != Err(Error::State(snow::error::StateProblem::Exhausted)) { finding("C09", format!("{}: stateless write under nonce 2^64-1 is not refused with Exhausted", name)); bad += 1; }
         if buf.iter().any(|b| *b != 0xA5) { finding("C09", format!("{}: the refused stateless write under the reserved nonce 2^64-1 still produced output (the cipher was run with that nonce)", name)); bad += 1; }
         if sr.read_message(u64::MAX, &[0u8; 32], &mut p) != Err(Error::State(snow::error::StateProblem::Exhausted)) { finding("C09", format!("{}: stateless read under nonce 2^64-1 is not refused with Exhausted", name)); bad += 1; }
-        if is_oneway(name) { if sr.write_message(0, b"x", &mut buf).is_ok() || si.read_message(0, &[0u8; 32], &mut p).is_ok() { finding("C11", format!("{}: one-way rules not enforced in stateless mode", name)); bad += 1; } if tr.write_message(b"x", &mut buf).is_ok() { finding("C11", format!("{}: one-way responder can write", name)); bad += 1; } }
+        if is_oneway(name) {
+            let oneway = || -> Result<usize, Error> { Err(Error::State(snow::error::StateProblem::OneWay)) };
+            let got = (sr.write_message(0, b"x", &mut buf), si.read_message(0, &[0u8; 32], &mut p), tr.write_message(b"x", &mut buf), ti.read_message(&[0u8; 32], &mut p));
+            if got != (oneway(), oneway(), oneway(), oneway()) { finding("C11", format!("{}: in transport mode of a one-way pattern the responder's write (stateless, stateful) and the initiator's read (stateless, stateful) return {:?}, documented: State(OneWay) for all four", name, got)); bad += 1; }
+            if tr.sending_nonce() != 0 || ti.receiving_nonce() != 0 { finding("C11", format!("{}: a refused one-way call moved a nonce", name)); bad += 1; }
+        }
         if bad >= 4 { break; }
     }
     assert_eq!(bad, 0);
